@@ -30,6 +30,9 @@ def make_callback(mod, spec, log, index):
             return [getattr(n, f) for f in n._fields]
         if kind == 'wrap':
             return mod.K1(n)
+        if kind == 'to_const':
+            # replacing a node by None / a falsy value is how a callback deletes it
+            return [None, 0, False, '', [], ()][spec[2]]
         raise ValueError(kind)
     return cb
 
@@ -182,6 +185,7 @@ class C16(Check):
             st.tuples(st.just('to_str'), st.sampled_from(CLASSES)),
             st.tuples(st.just('to_list'), st.sampled_from(CLASSES)),
             st.tuples(st.just('wrap'), st.sampled_from(CLASSES)),
+            st.tuples(st.just('to_const'), st.sampled_from(CLASSES), st.sampled_from([0, 0, 0, 1, 2, 3, 4, 5])),
         )
         cbs = st.lists(cb, min_size=0, max_size=3)
 
